@@ -114,7 +114,7 @@ func (e *Engine) enterBlock(st *State) ([]*State, bool) {
 		// back edge: invariant preserved
 		if ls != nil {
 			for j, c := range ls.Invariants {
-				e.oblige(st, fmt.Sprintf("loop%d:preserve#%d", k, j), pos, c.Text, e.evalBool(env, c))
+				e.oblige(st, fmt.Sprintf("loop%d:preserve#%d", k, j), pos, tagOr(c), e.evalBool(env, c))
 			}
 		}
 		e.frameObligations(st, fr, fmt.Sprintf("loop%d:frame", k), pos)
@@ -124,7 +124,7 @@ func (e *Engine) enterBlock(st *State) ([]*State, bool) {
 	// first arrival
 	if ls != nil {
 		for j, c := range ls.Invariants {
-			e.oblige(st, fmt.Sprintf("loop%d:entry#%d", k, j), pos, c.Text, e.evalBool(env, c))
+			e.oblige(st, fmt.Sprintf("loop%d:entry#%d", k, j), pos, tagOr(c), e.evalBool(env, c))
 		}
 	} else if st.dry == nil {
 		st.note(fmt.Sprintf("loop %d of %s has no invariant (treated as `true`)", k, shortFn(fr.fn)))
@@ -217,6 +217,13 @@ func hasFreshAfter(t string, mark int) bool {
 		}
 	}
 	return false
+}
+
+func tagOr(c Clause) string {
+	if c.Tag != "" {
+		return c.Tag
+	}
+	return c.Text
 }
 
 func (m *ModSet) merge(o *ModSet) {
@@ -824,6 +831,33 @@ func (e *Engine) evalLoc(env *Env, x ast.Expr) []Loc {
 			}
 		}
 		env.fail("assigns: %s is not a location", x.Name)
+	case *ast.CallExpr:
+		// reachable(v): the object a (possibly boxed) pointer argument points to
+		if id, ok := x.Fun.(*ast.Ident); ok && id.Name == "reachable" && len(x.Args) == 1 {
+			v := env.eval(x.Args[0])
+			if v.Box != nil {
+				v = *v.Box
+			}
+			switch v.K {
+			case KCell:
+				return []Loc{{IsCell: true, Cell: v.Cell}}
+			case KField:
+				return []Loc{{Heap: v.Heap, Base: v.Base}}
+			case KTerm:
+				if v.Typ != nil {
+					if pt, ok := v.Typ.Underlying().(*types.Pointer); ok {
+						if isStruct(pt.Elem()) {
+							return e.allLeaves(v.T, pt.Elem())
+						}
+						if !isArray(pt.Elem()) {
+							return []Loc{{Heap: e.d.BoxHeap(e.d.SortOf(pt.Elem())), Base: v.T}}
+						}
+					}
+				}
+			}
+			return []Loc{{Heap: "*"}}
+		}
+		env.fail("assigns: unsupported location expression")
 	case *ast.StarExpr:
 		p := env.eval(x.X)
 		switch p.K {
@@ -893,7 +927,7 @@ func (e *Engine) evalLoc(env *Env, x ast.Expr) []Loc {
 				var locs []Loc
 				var idxT string
 				if !all {
-					idxT = fmt.Sprintf("(+ (soff %s) %s)", coll.T, env.eval(x.Index).T)
+					idxT = fmt.Sprintf("(sidx %s %s)", coll.T, env.eval(x.Index).T)
 				}
 				for _, l := range e.allLeaves("?", et) {
 					l := l
@@ -919,7 +953,7 @@ func (e *Engine) evalLoc(env *Env, x ast.Expr) []Loc {
 			if all {
 				return []Loc{{Heap: h, Base: arr}}
 			}
-			return []Loc{{Heap: h, Base: arr, Idx: fmt.Sprintf("(+ (soff %s) %s)", coll.T, env.eval(x.Index).T)}}
+			return []Loc{{Heap: h, Base: arr, Idx: fmt.Sprintf("(sidx %s %s)", coll.T, env.eval(x.Index).T)}}
 		case SRef:
 			if mt, ok := coll.Typ.Underlying().(*types.Map); ok {
 				dom, val, ln := e.d.MapHeaps(e.mapKeySort(mt), e.d.SortOf(mt.Elem()))
@@ -1373,15 +1407,16 @@ func (e *Engine) doAppend(st *State, call *ssa.CallCommon, args []Val, instr ssa
 	nh := e.heapHavoc(st, h)
 	// other arrays untouched
 	st.assume(fmt.Sprintf("(forall ((r Ref)) (! (=> (not (= r (sarr %s))) (= (select %s r) (select %s r))) :pattern ((select %s r))))", n, nh, cur, nh))
-	// element values of the result
+	// element values of the result, by ABSOLUTE position p in the result's backing array (pattern-friendly)
+	rel := fmt.Sprintf("(- p (soff %s))", n) // index relative to the result slice
 	var srcElem string
 	if t.S == SBytes {
-		srcElem = fmt.Sprintf("(bat %s (- j (slen %s)))", t.T, s.T)
+		srcElem = fmt.Sprintf("(bat %s (- %s (slen %s)))", t.T, rel, s.T)
 	} else {
-		srcElem = fmt.Sprintf("(select (select %s (sarr %s)) (+ (soff %s) (- j (slen %s))))", cur, t.T, t.T, s.T)
+		srcElem = fmt.Sprintf("(select (select %s (sarr %s)) (+ (soff %s) (- %s (slen %s))))", cur, t.T, t.T, rel, s.T)
 	}
-	st.assume(fmt.Sprintf("(forall ((j Int)) (! (=> (and (<= 0 j) (< j (slen %s))) (= (select (select %s (sarr %s)) (+ (soff %s) j)) (ite (< j (slen %s)) (select (select %s (sarr %s)) (+ (soff %s) j)) %s))) :pattern ((select (select %s (sarr %s)) (+ (soff %s) j)))))",
-		n, nh, n, n, s.T, cur, s.T, s.T, srcElem, nh, n, n))
+	st.assume(fmt.Sprintf("(forall ((p Int)) (! (=> (and (<= (soff %s) p) (< p (+ (soff %s) (slen %s)))) (= (select (select %s (sarr %s)) p) (ite (< %s (slen %s)) (select (select %s (sarr %s)) (+ (soff %s) %s)) %s))) :pattern ((select (select %s (sarr %s)) p))))",
+		n, n, n, nh, n, rel, s.T, cur, s.T, s.T, rel, srcElem, nh, n))
 	// in place: elements outside the appended window keep their values
 	st.assume(fmt.Sprintf("(=> %s (forall ((i Int)) (! (=> (or (< i (+ (soff %s) (slen %s))) (>= i (+ (soff %s) (slen %s)))) (= (select (select %s (sarr %s)) i) (select (select %s (sarr %s)) i))) :pattern ((select (select %s (sarr %s)) i)))))",
 		inpl, s.T, s.T, n, n, nh, n, cur, s.T, nh, n))
